@@ -20,6 +20,8 @@ pub enum Inner {
     Stateful { calls: usize },
     /// every atom feels a gradient of the same norm `g` along x, whatever the geometry; the energy is constant
     ConstNorm { g: f64 },
+    /// the first gradient request is answered with norm `g` on every atom, all later ones with zero; the energy falls with every request
+    Kick { calls: usize, g: f64 },
 }
 
 pub struct Recorder {
@@ -52,6 +54,7 @@ impl Forcefield for Recorder {
             Inner::ZeroGrad => xs.iter().sum::<f64>(),
             Inner::Stateful { calls } => { *calls += 1; (*calls as f64 * 0.7).sin() * 3.0 }
             Inner::ConstNorm { .. } => 1.0,
+            Inner::Kick { calls, .. } => -(*calls as f64),
         };
         self.log.push(Event::E(xs, e));
         e
@@ -70,6 +73,7 @@ impl Forcefield for Recorder {
             Inner::ZeroGrad => xs.iter().map(|_| 0.0).collect(),
             Inner::Stateful { calls } => { *calls += 1; let c = *calls as f64; xs.iter().enumerate().map(|(i, _)| 5.0 * ((c + i as f64) * 0.37).cos() + 0.2).collect() }
             Inner::ConstNorm { g } => xs.iter().enumerate().map(|(i, _)| if i % 3 == 0 { *g } else { 0.0 }).collect(),
+            Inner::Kick { calls, g } => { *calls += 1; let first = *calls == 1; xs.iter().enumerate().map(|(i, _)| if first && i % 3 == 1 { *g * (1.0 + (i / 3) as f64) } else { 0.0 }).collect() }
         };
         self.log.push(Event::G(xs, g.clone()));
         self.buf = g.chunks(3).map(|c| Vector3D { x: c[0], y: c[1], z: c[2] }).collect();
@@ -100,11 +104,15 @@ pub fn oracle(out: &mut Out, label: &str, x0: &[f64], log: &[Event], xf: &[f64],
     let mut restarts = 0usize;
     let mut after_restart = false;
     // infer the common step length of a move y -> y2 against g; None if it is not such a move
+    let slack = std::cell::Cell::new(0.0f64);
     let step_alpha = |y: &Vec<f64>, g: &Vec<f64>, y2: &Vec<f64>| -> Option<f64> {
         let (mut best, mut bi) = (0.0f64, None);
         for i in 0..y.len() { if g[i].abs() > best && g[i].is_finite() { best = g[i].abs(); bi = Some(i); } }
         let i = bi?;
         let a = (y[i] - y2[i]) / g[i];
+        // the step length is read off a difference of coordinates: far from the origin that difference carries the rounding of the
+        // coordinates themselves (a few ulps of |y| over |g|), which the comparisons below allow for
+        slack.set(8.0 * f64::EPSILON * y[i].abs().max(y2[i].abs()) / g[i].abs());
         for k in 0..y.len() {
             let want = y[k] - a * g[k];
             let scale = y[k].abs().max((a * g[k]).abs()).max(1e-300);
@@ -124,7 +132,7 @@ pub fn oracle(out: &mut Out, label: &str, x0: &[f64], log: &[Event], xf: &[f64],
         let stepped = match step_alpha(y, g, y2) {
             Some(a) if a > 0.0 => match alpha_prev {
                 None => { alpha_prev = Some(a); true }
-                Some(p) if (a - p).abs() <= 1e-6 * p => true,
+                Some(p) if (a - p).abs() <= 1e-6 * p + slack.get() => true,
                 Some(p) if a < p && after_restart => { alpha_prev = Some(a); true }
                 Some(p) => {
                     if to_input { false } else {
@@ -227,6 +235,24 @@ pub fn run(out: &mut Out, seed: u64, tier: &str) {
         for g in [0.008, 0.05, 0.2] {
             run_one(out, &format!("const-norm {} on {} atoms", g, grid.n()), &grid, Inner::ConstNorm { g }, Some(if side > 4 { 6 } else { 30 }), &mut stats);
         }
+    }
+    // walks that travel far: one enormous first step and rest afterwards (what a very short contact does), and a constant enormous
+    // force for the whole budget — the answer is still "the last step taken", however far that is from the input
+    for g in [1e7, 1e10, 1e13] {
+        run_one(out, &format!("kick {:e}", g), &base, Inner::Kick { calls: 0, g }, None, &mut stats);
+        run_one(out, &format!("const-norm {:e}", g), &base, Inner::ConstNorm { g }, None, &mut stats);
+        run_one(out, &format!("const-norm {:e} budget 7", g), &base, Inner::ConstNorm { g }, Some(7), &mut stats);
+    }
+    // the same with the real force fields: starts with a contact far inside the repulsive wall (outside the energy clause's domain,
+    // inside this property's: any force field, any start)
+    let mut shorts: Vec<Mol> = vec![
+        named("he2-0.15", &[("He", 0.0, 0.0, 0.0), ("He", 0.15, 0.0, 0.0)]),
+        named("ar2-0.3", &[("Ar", 0.0, 0.0, 0.0), ("Ar", 0.0, 0.3, 0.0)]),
+    ];
+    { let mut m = lib[3].clone(); if let Some(h) = (0..m.n()).find(|i| m.zs[*i] == 1) { let p = m.xs[h]; m.zs.push(1); m.xs.push([p[0] + 0.03, p[1] + 0.03, p[2] - 0.03]); m.name = format!("{}+H-0.05-from-H{}", m.name, h); shorts.push(m); } }
+    for m in shorts.iter() {
+        let mol = match catch(|| m.build()) { Some(x) => x, None => continue };
+        for kind in ["uff", "rb"] { if let Some(ff) = FF::build(kind, &mol) { run_one(out, &format!("{}:{}", kind, m.name), m, Inner::Real(ff), None, &mut stats); } }
     }
     run_one(out, "budget-0", &base, Inner::Flat, Some(0), &mut stats);
     run_one(out, "budget-1", &base, Inner::Flat, Some(1), &mut stats);
